@@ -39,7 +39,8 @@ deriving DecidableEq, Repr, Inhabited
 inductive Err
   | pieceSize | path | commonPath | read | runtime
   | regex   -- `re.error`: `re.compile` rejected an item given to a regex filter list
-  | index   -- `IndexError`: `lst[i] = v` with `i` out of range
+  | index   -- `IndexError`: `lst[i] = v` / `lst.pop(i)` with `i` out of range
+  | value   -- `ValueError`: `lst.remove(x)` with `x` not in the list
   | internal (what : String)
 deriving DecidableEq, Repr, Inhabited
 
@@ -451,6 +452,15 @@ def pyIndex (len : Nat) (i : Int) : Option Nat :=
   let j := if i < 0 then i + len else i
   if 0 ≤ j ∧ j < len then some j.toNat else none
 
+/-- where `list.insert(i, x)` puts the item: negative indexes count from the end, anything beyond
+    either end is clamped -/
+def insertPos (len : Nat) (i : Int) : Nat :=
+  if i < 0 then (i + len).toNat else min i.toNat len
+
+/-- `del items[a:b]` on the plain Python list (`0 ≤ a`, `0 ≤ b` or an open end) -/
+def cut (l : List α) (a : Nat) (b : Option Nat) : List α :=
+  l.take a ++ l.drop (max a (b.getD l.length))
+
 end ML
 
 /-- the operations on one filter list (items of type `α`: wildcard patterns or regular
@@ -463,6 +473,11 @@ inductive LOp (α : Type)
   | extend (vs : List α)                                -- also `lst += vs` on a local name
   | del (i : Nat)                                       -- `del lst[i % len(lst)]` (nothing if empty)
   | clear
+  | insert (i : Int) (v : α)                            -- `lst.insert(i, v)`
+  | pop (i : Int)                                       -- `lst.pop(i)`; `lst.pop()` is `pop (-1)`; also `del lst[i]`
+  | remove (v : α)                                      -- `lst.remove(v)` (`v` of the stored type: not coerced)
+  | delSlice (a : Nat) (b : Option Nat)                 -- `del lst[a:b]`
+  | reverse                                             -- `lst.reverse()` (fix 3d3793a: `self[:] = self._items[::-1]`)
   | assignSelf                                          -- `torrent.x = torrent.x`, `lst[:] = lst`
   | iaddAttr (vs : List α)                              -- `torrent.x += vs`: extend, then the setter with the list itself
 deriving Repr, Inhabited
@@ -496,6 +511,27 @@ def appendL (s : St) (v : α) : St × Res :=
     let l := get s
     filtersChanged env (put s (if l.contains v then l else l ++ [v]))
 
+/-- `insert(i, v)`: coerce (may raise), skip an item that is already present, else
+    `self._items.insert(i, v)` (Python's clamping of the position); the callback runs in both cases -/
+def insertL (s : St) (i : Int) (v : α) : St × Res :=
+  if !valid v then (s, .err .regex)
+  else
+    let l := get s
+    let p := ML.insertPos l.length i
+    filtersChanged env (put s (if l.contains v then l else l.take p ++ v :: l.drop p))
+
+/-- `pop(i)` (`MutableSequence.pop`): `v = self[i]` (IndexError: nothing has changed), then
+    `del self[i]` = `__delitem__`: delete, callback -/
+def popL (s : St) (i : Int) : St × Res :=
+  match ML.pyIndex (get s).length i with
+  | none => (s, .err .index)
+  | some j => filtersChanged env (put s ((get s).eraseIdx j))
+
+/-- `remove(v)` (`MutableSequence.remove`): `del self[self.index(v)]`; `index` compares with the
+    stored items (no coercion) and raises ValueError if there is none: nothing has changed -/
+def removeL (s : St) (v : α) : St × Res :=
+  if (get s).contains v then filtersChanged env (put s ((get s).erase v)) else (s, .err .value)
+
 /-- `extend(vs)` (`MutableSequence.extend`): one `append` — with its callback — per item; the
     first exception (a rejected item or a raising callback) ends it with the earlier items kept -/
 def extendL (s : St) : List α → St × Res
@@ -515,6 +551,11 @@ def applyL (s : St) : LOp α → St × Res
     let l := get s
     if l.isEmpty then (s, .ok) else filtersChanged env (put s (l.eraseIdx (i % l.length)))
   | .clear => filtersChanged env (put s [])
+  | .insert i v => insertL env valid get put s i v
+  | .pop i => popL env get put s i
+  | .remove v => removeL env get put s v
+  | .delSlice a b => filtersChanged env (put s (ML.cut (get s) a b))
+  | .reverse => setSliceL env valid get put s 0 none (get s).reverse
   | .assignSelf => setSliceL env valid get put s 0 none (get s)
   | .iaddAttr vs =>
     match extendL env valid get put s vs with
